@@ -338,6 +338,19 @@ def check(acc, name, infos, ops, named, meta, sample=False):
         before = acc.viol_total
         if which == "ssbs" or d.fallback:
             check_ssbs(acc, d.text, d.sm, ops, inp)
+            if which == "ssbs" and acc.viol_total == before:
+                # the same decompiler object asked twice: same text, and the second map is as good as the first
+                try:
+                    import copy
+                    from explorerscript.ssb_script.ssb_converting.ssb_decompiler import SsbScriptSsbDecompiler
+                    obj = SsbScriptSsbDecompiler(infos, copy.deepcopy(ops), norm.coroutines(named))
+                    obj.convert()
+                    t2, sm2 = obj.convert()
+                    acc.count("second_convert_on_the_same_object")
+                    if t2 == d.text:
+                        check_ssbs(acc, t2, sm2, ops, dict(inp, second_convert=True))
+                except Exception:
+                    acc.count("second_convert_raised(C06)")
         else:
             check_exps(acc, d.text, d.sm, ops, inp)
         if acc.viol_total == before and which == "exps":
